@@ -55,6 +55,37 @@ def addLetter (st : Table × List (Option Nat)) (a : Nat) : Table × List (Optio
 
 def build (p : List Nat) : Table := (p.reverse.foldl addLetter ([], [none])).1
 
+/-! The same construction with the panics of the Rust code made explicit (`none` = the real code would panic:
+`table[k_]` out of bounds, `suff[..]` read at an index that was never written, `.unwrap()` of an absent
+transition — or the model's fuel ran out).  `buildS p = some (build p)` for every pattern
+(`RbV/Lemmas/BomOracle.lean`), so `build` never relies on the totalised `getD`/`[_]?` defaults. -/
+
+def climbS (suff : List (Option Nat)) (a i : Nat) : Nat → Table → Option Nat → Option (Table × Option Nat)
+  | 0, T, none => some (T, none)
+  | 0, _, some _ => none
+  | _ + 1, T, none => some (T, none)
+  | fuel + 1, T, some k_ =>
+    match T[k_]?, suff[k_]? with
+    | some l, some k' =>
+      if (lookup l a).isSome then some (T, some k_) else climbS suff a i fuel (tinsert T k_ a i) k'
+    | _, _ => none
+
+def addLetterS (st : Table × List (Option Nat)) (a : Nat) : Option (Table × List (Option Nat)) :=
+  let i := st.1.length + 1
+  match st.2[i - 1]? with
+  | none => none
+  | some k0 =>
+    match climbS st.2 a i (i + 1) st.1 k0 with
+    | none => none
+    | some (T', none) => some (T' ++ [[(a, i)]], st.2 ++ [some 0])
+    | some (T', some k_) =>
+      match delta T' k_ a with                       -- `*table[k].get(a).unwrap()`
+      | none => none
+      | some s => some (T' ++ [[(a, i)]], st.2 ++ [some s])
+
+def buildS (p : List Nat) : Option Table :=
+  (p.reverse.foldl (fun st a => st.bind (addLetterS · a)) (some ([], [none]))).map (·.1)
+
 /-- reading a word from state `q` -/
 def runT (T : Table) : Nat → List Nat → Option Nat
   | q, [] => some q
